@@ -178,5 +178,44 @@ def check(ctx: Ctx) -> list[RuleResult]:
                 r4.ok({"site": s2.text[:70], "kind": "deferred"})
             else:
                 r4.fail(f"{pm2.short}:{s2.text[:60]}", pm2.loc(s2.node), "an entity's _handle_msg is called synchronously from process_msg: its exceptions would no longer be isolated from the dispatcher")
+    # the array-merge of the gateway handler may only splice packets of one device, one code, within the time window: the three
+    # equalities must be implied by a true result of detect_array_fragment (conjuncts, not disjuncts)
+    daf = repo.func("ramses_rf.dispatcher.detect_array_fragment")
+    rets = [n for n in own_nodes(daf.node) if isinstance(n, ast.Return) and n.value is not None]
+    if len(rets) != 1:
+        raise AnalysisError("detect_array_fragment: expected a single return expression")
+    rv = rets[0].value
+    if isinstance(rv, ast.Call) and norm(rv.func) == "bool" and len(rv.args) == 1:
+        rv = rv.args[0]
+    atoms = [a for a, holds in _implied_true(rv) if holds]
+    def eq_between(a: ast.expr, x: str, y: str) -> bool:
+        if not (isinstance(a, ast.Compare) and all(isinstance(o, (ast.Eq, ast.Is)) for o in a.ops)):
+            return False
+        terms = [norm(a.left)] + [norm(c) for c in a.comparators]
+        return any(t in (f"this.{x}", f"this.{x}.id") for t in terms) and any(t in (f"prev.{y}", f"prev.{y}.id") for t in terms)
+    for what, x in (("the same source device", "src"), ("the same code", "code")):
+        r4.instances += 1
+        r4.nontrivial += 1
+        if any(eq_between(a, x, x) for a in atoms):
+            r4.ok({"array_merge_requires": what})
+        else:
+            r4.fail(f"{daf.short}:merge-without-{x}-equality", daf.loc(rets[0]), f"detect_array_fragment no longer requires {what} (whole-{x} equality of the two packets): an unrelated packet (e.g. another controller's array within the 3 s window) is spliced into this device's array")
+    r4.instances += 1
+    r4.nontrivial += 1
+    if any(isinstance(a, ast.Compare) and "this.dtm" in norm(a) and "prev.dtm" in norm(a) and any(isinstance(o, (ast.Lt, ast.LtE, ast.Gt, ast.GtE)) for o in a.ops) for a in atoms):
+        r4.ok({"array_merge_requires": "a time window between the two packets"})
+    else:
+        r4.fail(f"{daf.short}:merge-without-time-window", daf.loc(rets[0]), "detect_array_fragment no longer bounds the time between the two packets")
     out.append(r4)
     return out
+
+
+def _implied_true(t: ast.expr, edge: bool = True) -> "list[tuple[ast.expr, bool]]":
+    """Atoms whose truth follows from the expression being `edge` (conjuncts of and-chains / disjuncts of negated or-chains)."""
+    if isinstance(t, ast.UnaryOp) and isinstance(t.op, ast.Not):
+        return _implied_true(t.operand, not edge)
+    if isinstance(t, ast.BoolOp):
+        if (isinstance(t.op, ast.And) and edge) or (isinstance(t.op, ast.Or) and not edge):
+            return [x for v in t.values for x in _implied_true(v, edge)]
+        return []
+    return [(t, edge)]
